@@ -51,13 +51,17 @@ def run(ctx):
     if ctx.thorough:
         ctx.model_check("net/MCFeed", "net/MCFeed", timeout=7200, workers=4, name="MCFeed(unreduced)", deadlock=False)
         ctx.model_check("net/MCFeed", "net/MCFeedThorough", timeout=7200, workers=6, name="MCFeedThorough", deadlock=False)
+        # liveness: Unsubscribe always returns under fair scheduling of the internal steps
+        ctx.model_check("net/MCFeed", "net/MCFeedLive", timeout=7200, workers=4, name="MCFeedLive(UnsubReturns)", deadlock=False)
     # R: schedules at blocking-point granularity, forced on the real feed under synctest
-    for cfg, ns, nc, capmod in ctx.pick([("net/MCFeedSched", 2, 2, 2)], [("net/MCFeedSched", 2, 2, 2), ("net/MCFeedSchedThorough", 2, 3, 2)]):
+    for cfg, ns, nc, capmod in ctx.pick([("net/MCFeedSched", 2, 2, 2)], [("net/MCFeedSched", 2, 2, 2), ("net/MCFeedSchedThorough", 3, 2, 2)]):
         res = ctx.model_check("net/MCFeedSched", cfg, tags=("EDGE", "STATE"), timeout=3600, workers=4, name=os.path.basename(cfg), deadlock=False)
         gp = os.path.join(ctx.scratch, os.path.basename(cfg) + ".json")
         write_json(gp, sched_graph(res, ns, nc, capmod))
         for kind in ("feed", "feedof"):
-            ctx.drive(drv, ["-mode", "replay", "-kind", kind, "-in", gp], name="c50-replay-%s-%s" % (kind, os.path.basename(cfg)), timeout=3600)
+            sr, _ = ctx.drive(drv, ["-mode", "replay", "-kind", kind, "-in", gp], name="c50-replay-%s-%s" % (kind, os.path.basename(cfg)), timeout=3600)
+            # every executed schedule is a behaviour of the specification checked step by step against the real feed
+            ctx.cov["traces_validated_against_impl"] += int(sr.get("evaluations", 0))
     # V: concurrent histories of the real code explained by the spec
     for kind in ("feed", "feedof"):
         for (d, tag) in ((drv, ""), (drv_race, "-race")):
@@ -71,6 +75,15 @@ def run(ctx):
             if not ok:
                 ctx.reject_trace("net/FeedTrace", tp, consumed, r,
                                  desc="history of real event.%s has no explanation by Feed.tla after event %d" % ("FeedOf" if kind == "feedof" else "Feed", consumed))
+    if ctx.thorough:
+        # cross-check of the reductions used by FeedTrace: a short history validated breadth-first with the
+        # reduced and with the unreduced silent-step relation must be accepted by both
+        tp = os.path.join(ctx.scratch, "trace-small.ndjson")
+        s, _ = ctx.drive(drv, ["-mode", "record", "-kind", "feed", "-trace", tp, "-runs", 12, "-caps", CAPS], name="c50-record-small")
+        for cfg in ("net/FeedTrace", "net/FeedTraceFull"):
+            ok, consumed, total, r = ctx.validate("net/FeedTrace", tp, cfg=cfg, ntraces=0, timeout=7200, silent_steps=True, name=os.path.basename(cfg) + "(bfs)")
+            if not ok:
+                ctx.reject_trace("net/FeedTrace", tp, consumed, r, cfg=cfg, desc="history of real event.Feed has no explanation by Feed.tla (%s) after event %d" % (cfg, consumed))
     return ctx.finish(rule="MC: all interleavings of call/internal/return steps, 2 senders x 2-3 channels (caps 0/1), 1 send each, unsubscribe racing; V: stress histories of 3 senders x 4 channels (caps 0,1,2,0)",
                       assumptions=["one subscription per channel at a time", "values are unique per send (sender*1000+k)",
                                    "Go channel semantics as modelled by Room/Deliver/RecvEnd"])
